@@ -121,7 +121,9 @@ def _task(t, ind=""):
         out.append(f"{i2}milestone")
     if t.get("effort") is not None:
         out.append(f"{i2}effort {effort_str(t['effort'])}")
-    if t.get("alloc"):
+    if t.get("stmt_alloc"):   # an allocation written on a CONTAINER: the leaves marked inh=['alloc'] receive it by inheritance
+        out += _rep([f"{i2}allocate " + ", ".join(t["stmt_alloc"])])
+    if t.get("alloc") and "alloc" not in (t.get("inh") or ()):
         a = ", ".join(t["alloc"])
         if t.get("alt"):
             a += " { alternative " + ", ".join(t["alt"]) + " }"
